@@ -21,7 +21,11 @@ pub fn run(ctx: &Ctx) -> Report {
         // scale family: counts and lengths past 2^5 .. 2^16 (label length, blocks, statements, initialized runs, externals' uses), also spread over > 65536 lines
         Plan { fam: "BIG", styles: vec![(0u64, DEFAULT_SECONDARY), (0u64, 1 + 160 * 4)], debug: both.clone(), stride: 1 },
     ];
-    plans.push(Plan { fam: "S3", styles: if ctx.thorough() { two.clone() } else { plain.clone() }, debug: if ctx.thorough() { both.clone() } else { vec![true] }, stride: ctx.pick(7, 1) });
+    // thorough: all 3-statement sequences under six renderings (plain; lower-case / own-line labels with colons / comment lines; tabs and decimal
+    // notation with CRLF comments; mixed case with wide separators), the label, name and string families under all of them as well
+    let six = vec![(0u64, DEFAULT_SECONDARY), (3887u64, 0u64), (324 * 5 + 17, 37), (324 * 9 + 100, 70), (324 * 2 + 1, 21), (324 * 7 + 200, 3)];
+    plans.push(Plan { fam: "S3", styles: if ctx.thorough() { six.clone() } else { plain.clone() }, debug: if ctx.thorough() { both.clone() } else { vec![true] }, stride: ctx.pick(7, 1) });
+    if ctx.thorough() { for fam in ["LAB", "NAMES", "STR", "S2", "BLK", "FENCE"] { plans.push(Plan { fam, styles: six[1..].to_vec(), debug: both.clone(), stride: 1 }); } }
     run_plans(ctx, &mut rep, "C01", &plans, &|i| i.wellformed && i.accepted && i.image_words > 0);
     rep.bound("sequence_length", Json::s(ctx.pick("<=2 complete, 3 every 7th index", "<=3 complete")));
     rep.require(rep.acc.get("accepted") > 10_000 && rep.acc.outcomes.len() > 1000, "many distinct images were produced and compared");
